@@ -42,7 +42,8 @@ fn qual(u: &mut Unstructured) -> Result<Option<Qual>> {
         return Ok(None);
     }
     let book = if u.ratio(1, 6)? { Some(pick(u, &["1", "Book1.xlsx", "My Book.xlsx"])?.to_string()) } else { None };
-    Ok(Some(Qual { pick: 0, sheet: pick(u, SHEETS)?.to_string(), book, path: None, force_quote: u.ratio(1, 20)? }))
+    let sheet2 = if book.is_none() && u.ratio(1, 15)? { Some(pick(u, SHEETS)?.to_string()) } else { None };
+    Ok(Some(Qual { pick: 0, sheet: pick(u, SHEETS)?.to_string(), book, path: None, force_quote: u.ratio(1, 20)?, sheet2 }))
 }
 fn reference(u: &mut Unstructured) -> Result<RefNode> {
     let area = match u.int_in_range(0..=7u8)? {
@@ -63,7 +64,7 @@ fn reference(u: &mut Unstructured) -> Result<RefNode> {
             Area::Cols { c1: a.min(b), a1: u.ratio(1, 3)?, c2: a.max(b), a2: u.ratio(1, 3)? }
         }
     };
-    Ok(RefNode { qual: qual(u)?, area })
+    Ok(RefNode { qual: qual(u)?, area, lower: u.ratio(1, 16)? })
 }
 fn ref_like(u: &mut Unstructured) -> Result<Expr> {
     Ok(match u.int_in_range(0..=5u8)? {
@@ -123,7 +124,7 @@ fn build(data: &[u8]) -> Result<Case> {
     let e = expr(&mut u, 5)?;
     let mut blanks = Vec::new();
     while !u.is_empty() && blanks.len() < 24 {
-        blanks.push(u.int_in_range(0..=2u8)?);
+        blanks.push(u.int_in_range(0..=5u8)?);
     }
     Ok(Case { path, clean: true, expr: e, blanks, lead, trail, at, to, edit_kind, gap, n })
 }
